@@ -47,7 +47,16 @@ type PoliciesData struct {
 
 type StreamsData struct {
 	stream        *streams.Stream
+	streamLock    sync.RWMutex // orders the publication of a rebuilt engine with its readers
 	flowValidator *validation.Validator
+}
+
+// currentStream returns the engine that transactions are served by. The message handlers
+// run concurrently with a reload, which replaces the engine.
+func (rd *HandlingDataManager) currentStream() *streams.Stream {
+	rd.streamLock.RLock()
+	defer rd.streamLock.RUnlock()
+	return rd.stream
 }
 
 type HandlingDataManager struct {
@@ -250,7 +259,9 @@ func (rd *HandlingDataManager) initializeStreams() (err error) {
 		return fmt.Errorf("failed to initialize streams: %w", err)
 	}
 	// The engine serves transactions only once it is fully built.
+	rd.streamLock.Lock()
 	rd.stream = stream
+	rd.streamLock.Unlock()
 
 	rd.stream.InitializeHubCommunication()
 	if err = config.WaitForProxyHealthcheck(); err != nil {
@@ -322,7 +333,7 @@ func (rd *HandlingDataManager) handleOnError() func(http.ResponseWriter, *http.R
 		}
 
 		for failedTransactionID := range failedTransactions.FailedTransactions {
-			rd.stream.OnError(failedTransactionID)
+			rd.currentStream().OnError(failedTransactionID)
 		}
 
 		SuccessResponse(writer, "Error logged successfully")
